@@ -147,6 +147,12 @@ def run(ctx):
                 be = bool_edge(v, b, s)
                 if be and be[1] is False and (s in error_blocks(v) or _leads_to_error_only(v, s)):
                     isd = b
+    # "an identical configuration always reopens successfully": the gate refuses only a non-directory, a failed row comparison
+    # (ConfigDatabase::validate, through `?`) or an I/O error (through `?`)
+    import tablerules as T
+    for (ln, cond) in T.unexpected_refusals(v, allow=lambda dd: mentions(dd, "is_dir")):
+        R.violation("GUARD", "%s:%s" % (v.loc["f"], ln), "GUARD|config|unexpected-refusal",
+                    "validate_config_database refuses on a condition the contract does not give (`%s`): a directory must reopen under the configuration it was created with" % cond)
     R.ob(isd is not None, "GUARD", v.where(), "GUARD|config|not-a-directory", "a path that is not a directory is not refused",
          sample={"rule": "GUARD", "row": "!is_dir => Err"})
     # 3. ConfigDatabase::validate / get
